@@ -48,8 +48,8 @@ def main():
                         p = subprocess.run([os.path.join(VERIF, "cgv"), c, m.get("tier", "quick")], env=env, cwd=VERIF,
                                            stdout=subprocess.PIPE, stderr=subprocess.STDOUT, text=True)
                         if p.returncode != 0 or "VIOLATION" in p.stdout:
-                            lines = [l for l in p.stdout.splitlines() if "VIOLATION" in l or "CHECK-BROKEN" in l or "error" in l.lower()]
-                            bad.append("%s rc=%d %s" % (c, p.returncode, " | ".join(l[:260] for l in lines[:3])))
+                            lines = [l for l in p.stdout.splitlines() if l.strip() and not l.startswith("VIOLATION") and " quick: " not in l and " thorough: " not in l]
+                            bad.append("\n      %s rc=%d\n        %s" % (c, p.returncode, "\n        ".join(l[:700] for l in lines[:6])))
                     status.insert(0, "SILENT" if not bad else "ALARM")
                     status.extend(bad)
                     results.append((m["id"], " ".join(status)))
